@@ -76,6 +76,8 @@ MIXES = {
         (['PYhc', 'PY', 'HNC'], ['HSs', 'HS', 'LJ'], ['FA', 'NI', 'FA']),
         (['PY', 'PY', 'HNC'], ['HS', 'HS', 'LJ'], ['G', 'G', 'SS'])],          # a copolymer: non-zero unlike-pair omega
     3: [(['PY', 'HNC', 'MSA', 'PYhc', 'PY', 'HNC'], ['HS', 'LJ', 'EXP', 'HSs', 'HS', 'LJ'], ['SS', 'NI', 'G', 'G', 'NI', 'SS'])],
+    4: [(['PY', 'HNC', 'PY', 'PY', 'PYhc', 'PY', 'HNC', 'MSA', 'PY', 'PY'], ['HS', 'LJ', 'HS', 'HS', 'HSs', 'HS', 'LJ', 'EXP', 'HS', 'HS'],
+         ['SS', 'NI', 'NI', 'NI', 'G', 'NI', 'NI', 'SS', 'NI', 'SS'])],
 }
 
 
